@@ -36,8 +36,43 @@ PATH = [(NS, 'Namespace.__init__'),
         (JJ, 'DSDLCodeGenerator.filter_type_to_include_path')]
 
 
+# the method added by design_notes/C11_stem_collide_fix.patch; with it build_namespace_tree has its second pinned shape
+STEM_CHECK = (NS, '_NamespaceFactory.check_namespace_files_are_not_type_files')
+
+
+def _dump(targets) -> str:
+    return '\n'.join('## %s:%s\n%s' % (p, q, shape_pin.normalized_dump(p, q)) for p, q in targets) + '\n'
+
+
 def pin_c11tree():
-    return shape_pin.check_pin('c11tree', TREE)
+    """two pinned shapes: pins/c11tree.txt (no stem check) and pins/c11tree_stemfix.txt (build_namespace_tree calls
+    nsf.check_namespace_files_are_not_type_files() before returning; that method is pinned too).  Which one /repo has is the
+    regenerated fact pin_c11tree_stem_check the model (Namespace.build_checked) is instantiated with."""
+    out = os.path.join(gen.GEN_DIR, 'Gen_Pin_c11tree.v')
+    head = gen.HEADER % ', '.join('%s:%s' % t for t in TREE + [STEM_CHECK])
+    try:
+        plain = open(os.path.join(shape_pin.PINS, 'c11tree.txt'), encoding='utf-8').read()
+        fixed = open(os.path.join(shape_pin.PINS, 'c11tree_stemfix.txt'), encoding='utf-8').read()
+        cur = _dump(TREE)
+        flag = None
+        if cur == plain:
+            flag = False
+        else:
+            try:
+                if _dump(TREE + [STEM_CHECK]) == fixed:
+                    flag = True
+            except KeyError:
+                pass
+    except (OSError, KeyError, SyntaxError, AssertionError) as ex:
+        gen.write_if_changed(out, head + '(* shape pin failed closed: %r *)\n' % (ex,))
+        return False, 'shape pin c11tree failed closed: %r' % (ex,)
+    if flag is None:
+        gen.write_if_changed(out, head + '(* shape of the pinned function(s) changed: the hand model is no longer known to describe the code *)\n')
+        return False, 'shape pin c11tree: the code has neither of the two shapes the hand model was written for'
+    gen.write_if_changed(out, head + 'Definition pin_c11tree_ok : bool := true.\n'
+                         '(* does build_namespace_tree refuse a namespace file that is also a type file (C11_stem_collide_fix.patch)? *)\n'
+                         'Definition pin_c11tree_stem_check : bool := %s.\n' % ('true' if flag else 'false'))
+    return True, 'ok (stem check %s)' % ('present' if flag else 'absent')
 
 
 def pin_c11path():
